@@ -118,7 +118,7 @@ static void setup_state(int state, enum cl_kind rkind)
 	R = jx_open(rkind);
 	Y = jx_open(CL_RAW);
 	W = -1;
-	if (xp_param("third", 1)) {
+	if (xp_param("third", 1) && state != 6) {
 		W = jx_open(rkind == CL_WS ? CL_RAW : CL_WS);
 	}
 	if (state >= 1) {
@@ -154,6 +154,25 @@ static void setup_state(int state, enum cl_kind rkind)
 			}
 		}
 		jx_settle();
+	}
+	if (state == 6) {
+		/* a departed caller's request is still pending at R, which meanwhile owns nothing; the third connection arrived after the caller
+		 * left (it may have been given the caller's memory): whatever R now says about that request, nobody else may hear of it */
+		int D = jx_open(rkind == CL_WS ? CL_RAW : CL_WS);
+		jx_sendf(D, "{\"id\":\"departed\",\"method\":\"call\",\"params\":{\"path\":\"rm\",\"args\":[0],\"timeout\":3}}");
+		jx_settle();
+		jx_sendf(R, "{\"id\":\"r5\",\"method\":\"remove\",\"params\":{\"path\":\"rm\"}}");
+		jx_sendf(R, "{\"id\":\"r6\",\"method\":\"remove\",\"params\":{\"path\":\"rs\"}}");
+		jx_settle();
+		if (!jx_is_success(jx_find_response_str(R, "r5", 0)) || !jx_is_success(jx_find_response_str(R, "r6", 0))) {
+			jx_log_transcripts();
+			xp_fail("setup-failed", "scenario preamble (owner removes its elements while a request is pending) was not answered with success");
+		}
+		sim_client_fin(D);
+		jx_settle();
+		if (xp_param("third", 1)) {
+			W = jx_open(rkind == CL_WS ? CL_RAW : CL_WS);
+		}
 	}
 	if (state == 2) {
 		jx_sendf(R, "{\"id\":\"pre\",\"method\":\"call\",\"params\":{\"path\":\"ym\",\"args\":[0]}}");
@@ -314,7 +333,7 @@ static void run_response_object(int state)
 		break;
 	case 4: {
 		/* id of a live routed request for which R is the owner (state 3), else of a request routed to Y */
-		int owner = state == 3 ? R : Y;
+		int owner = (state == 3 || state == 6) ? R : Y;
 		const char *rid = NULL;
 		for (int i = 0; i < clients[owner].nmsgs; i++) {
 			if (clients[owner].msgs[i].cls == MC_ROUTED) {
@@ -445,11 +464,17 @@ static void run(void)
 	int nstates = (int)xp_param("states", 4);
 	int ntrans = (int)xp_param("transports", 2);
 	/* order of exploration: empty, populated, populated + requester holds fetches with the ids the alphabet uses, then the two in-flight states */
-	static const int STATE_ORDER[6] = {0, 1, 4, 5, 2, 3};
-	if (nstates > 6) {
-		nstates = 6;
+	static const int STATE_ORDER[7] = {0, 1, 4, 5, 2, 3, 6};
+	if (nstates > 7) {
+		nstates = 7;
 	}
 	int state = STATE_ORDER[xp_choose(nstates, XP_SCENARIO, "state")];
+	if (xp_param("only_state", -1) >= 0) {
+		if (state != STATE_ORDER[0]) {
+			xp_end_run();
+		}
+		state = (int)xp_param("only_state", -1);
+	}
 	enum cl_kind rkind = xp_choose(ntrans, XP_SCENARIO, "transport") ? CL_WS : CL_RAW;
 	int mode = xp_choose(3, XP_SCENARIO, "mode");
 	if (mode == 2) {
@@ -469,6 +494,6 @@ const struct driver drv_c02 = {
     .name = "c02",
     .property = "C02",
     .run = run,
-    .rule = "full product daemon-state x transport x {15 method forms} x {25 params shapes} x {12 id forms}, plus incoming result/error objects x 5 id kinds, plus all ordered pairs (thorough: triples) of a request alphabet sent as a batch and compared with a twin execution that sends the members one by one; every execution is non-trivial (one request judged by the response ledger); states = distinct normalised (requester, bystander) transcripts",
+    .rule = "daemon states: empty; populated; requester holds fetches; other owner stalled; requester has a request in flight; requester owns an element with a request in flight; requester owns nothing any more but a departed caller's request is still pending at it and a new connection has arrived since; full product daemon-state x transport x {15 method forms} x {25 params shapes} x {12 id forms}, plus incoming result/error objects x 5 id kinds, plus all ordered pairs (thorough: triples) of a request alphabet sent as a batch and compared with a twin execution that sends the members one by one; every execution is non-trivial (one request judged by the response ledger); states = distinct normalised (requester, bystander) transcripts",
     .assumptions = "id equality is JSON equality (numbers by value)|ids of type null/bool/object/array are outside the statement: only 'no response on a foreign connection' is checked for them|an incoming response object may make the daemon drop the connection; that is not an answer",
 };
